@@ -105,6 +105,20 @@ def run_case(case, strict=False):  # pylint: disable=unused-argument,too-many-br
                 break
     except Exception as exc:  # pylint: disable=broad-except
         bad("c18_exception", "parsing %r raised %s: %s" % (text, type(exc).__name__, exc))
+    if not out:
+        # the parser object is used again for another text (also the empty one), whatever state the walk left it in
+        two = "G1 X1 ;c\nM117 hi\r\n"
+        try:
+            parser.parse(two)                      # only its first line is looked at ...
+            for other in ("", two, text[:7], ""):   # ... then other texts, also the empty one
+                again = "".join(line.fullText for line in parser.parseLines(other))
+                if again != other:
+                    bad("c18_lossless", "after %r (and the first line of %r) the same parser turns %r into %r" % (text[:40], two, other, again))
+                    break
+                if other:
+                    parser.parse(other)
+        except Exception as exc:  # pylint: disable=broad-except
+            bad("c18_exception", "re-using the parser raised %s: %s" % (type(exc).__name__, exc))
     if not out or all(f["tag"].startswith("c18_norm") or f["tag"].startswith("c18_checksum") for f in out):
         if total != len(text):
             bad("c18_consumed", "lines consume %d of %d characters of %r" % (total, len(text), text))
